@@ -24,6 +24,9 @@ import (
 // deadline / canceled: the listing fails with a context error although the caller's context is alive (the
 // per-request timeout fired, or the DA server cancelled the request on its side).
 type DADouble struct {
+	// ContentIDs: ids are height + commitment only (as in core/da.DummyDA and local-da), so the same blob placed
+	// twice at one height is listed under the same id twice
+	ContentIDs bool
 	mu      sync.Mutex
 	tr      *Tracer
 	cur     uint64
@@ -92,7 +95,9 @@ func (d *DADouble) mkID(height uint64, blob []byte) []byte {
 	id := make([]byte, 8+32+4)
 	binary.LittleEndian.PutUint64(id, height)
 	copy(id[8:], c[:])
-	binary.LittleEndian.PutUint32(id[40:], uint32(d.seq))
+	if !d.ContentIDs {
+		binary.LittleEndian.PutUint32(id[40:], uint32(d.seq))
+	}
 	return id
 }
 
